@@ -452,3 +452,42 @@ func ZZ_C01_failedCreationsNotRepeatedInTheSync() {
 	nondet.Reach("C01.failed-create.some-failed-some-created", failed > 0 && len(c.Pods) > 0)
 	nondet.Reach("C01.failed-create.all-created", failed == 0 && len(c.Pods) == 3)
 }
+
+// ZZ_C01_secondSyncSeesThePodsOfTheFirst: "creates a pod for a node only if ... that node ... carries no
+// pod of the same ExtendedDaemonSet" across two syncs, whatever the pod template drags along: the template
+// may carry the reserved link labels with the names of another ExtendedDaemonSet / replica set, or the
+// reserved hash annotations with stale values (a template written from the manifest of a running pod).
+// Two nodes without pod; sync, the kubelet starts the pods, one minute passes, sync again: the second sync
+// creates nothing and each node holds exactly one pod.
+func ZZ_C01_secondSyncSeesThePodsOfTheFirst() {
+	c, ds, rsNew, _ := zzStore(2)
+	ds.Status.ActiveReplicaSet = rsNew.Name
+	ds.Spec.Strategy.RollingUpdate.SlowStartAdditiveIncrease = &intstr.IntOrString{Type: intstr.Int, IntVal: 5}
+	switch nondet.String("template.carries", "nothing", "foreign-link-labels", "stale-hash-annotations") {
+	case "foreign-link-labels":
+		rsNew.Spec.Template.Labels[datadoghqv1alpha1.ExtendedDaemonSetNameLabelKey] = "bar"
+		rsNew.Spec.Template.Labels[datadoghqv1alpha1.ExtendedDaemonSetReplicaSetNameLabelKey] = "bar-z"
+	case "stale-hash-annotations":
+		rsNew.Spec.Template.Annotations = map[string]string{
+			datadoghqv1alpha1.MD5ExtendedDaemonSetAnnotationKey:     "0123456789abcdef0123456789abcdef",
+			datadoghqv1alpha1.MD5NodeExtendedDaemonSetAnnotationKey: "fedcba9876543210fedcba9876543210",
+		}
+	}
+	affinity := nondet.Bool("nodeAffinitySupported")
+	_, err := zzReconcile(zzReconciler(c, affinity), zzNS, rsNew.Name)
+	nondet.Assert("C01.second-sync.first-ok", err == nil && c.Count("create", "Pod") == 2)
+	zzKubelet(c)
+	mark := len(c.Log)
+	_, err = zzReconcile(zzReconciler(c, affinity), zzNS, rsNew.Name)
+	nondet.Assert("C01.second-sync.second-ok", err == nil)
+	for _, e := range c.Log[mark:] {
+		if e.Kind == "Pod" && (e.Verb == "create" || e.Verb == "delete") {
+			nondet.Assert("C01.second-sync.nothing-created-or-deleted", false)
+		}
+	}
+	held := map[string]int{}
+	for _, p := range c.Pods {
+		held[fakeapi.PodNode(p)]++
+	}
+	nondet.Assert("C01.second-sync.one-pod-per-node", held[zzNodeName(0)] == 1 && held[zzNodeName(1)] == 1 && len(c.Pods) == 2)
+}
